@@ -2199,7 +2199,15 @@ impl Context {
             }
             Expr::Block(b) => {
                 if let Some(block) = b {
-                    self.eval_expr(*block)
+                    // A block is a scope of its own (as in the type checker): the bindings made
+                    // inside it end with it. The frames of `valenv` are function levels, so the
+                    // block's bindings are dropped from the current frame instead of pushing one.
+                    let nbinds = self.valenv.0.front().map_or(0, |frame| frame.len());
+                    let res = self.eval_expr(*block);
+                    if let Some(frame) = self.valenv.0.front_mut() {
+                        frame.truncate(nbinds);
+                    }
+                    res
                 } else {
                     (Arc::new(Value::None), unit!(), vec![])
                 }
